@@ -299,6 +299,10 @@ func RunLoaded(l *Loaded, o Opts) *report.Report {
 			return inconclusive(err.Error())
 		}
 		grew := m.SharedUpdate()
+		if single := m.NumThreads() == 1; single != m.Single {
+			m.Single = single
+			grew = true
+		}
 		if m.Pruner != nil {
 			rep.PruneQ += m.Pruner.Queries
 			rep.Pruned += m.Pruner.Pruned
